@@ -318,6 +318,12 @@ class AsyncServer(Entity):
                     # Return generator for I/O processing
                     def io_wrapper():
                         io_start = self.now.to_seconds()
+                        # The CPU is free while this request waits for I/O:
+                        # hand the queue-processing event to the engine now.
+                        # (Returning it after the I/O wait would both stall the
+                        # CPU queue and emit an event stamped in the past.)
+                        if result_events:
+                            yield 0.0, result_events
                         result = yield from io_result
                         io_time = self.now.to_seconds() - io_start
                         self._io_times.append(io_time)
@@ -326,13 +332,10 @@ class AsyncServer(Entity):
                         # Complete the request
                         self._complete_request(original_event)
 
-                        # Return any events from I/O handler plus queue processing
-                        if result is None:
-                            return result_events if result_events else None
-                        elif isinstance(result, list):
-                            return result + result_events
-                        else:
-                            return [result, *result_events]
+                        # Return any events from the I/O handler
+                        if result is None or isinstance(result, list):
+                            return result
+                        return [result]
 
                     return io_wrapper()
 
